@@ -92,12 +92,12 @@ Section C01.
       If the document keeps the signature list of an accepted one but its content differs
       (traditional format: different canonical content of the payload, i.e. [norm (asdict ..)];
       DSSE: different payload bytes), then every key set that accepted the original rejects it —
-      against every link directory, with any parameters, before any command runs. *)
+      against every link directory, with any parameters, before any command runs.
+      Holds for sslib-shaped and gpg-shaped keys alike (DSSE never accepts a gpg key). *)
   Theorem C01_edit_rejected_metablock : forall sigs p p' d a lk tr,
     ideal_sigs sig_ok ->
     a_md a = Metablock sigs p ->
     verify d a = (Ok lk, tr) ->
-    (forall ks, a_keys a = JDict ks -> sslib_keys ks) ->
     wf_json (payload_asdict p) = true -> wf_json (payload_asdict p') = true ->
     norm (payload_asdict p') <> norm (payload_asdict p) ->
     forall d' params name, exists e,
@@ -163,7 +163,7 @@ Proof. vm_compute. reflexivity. Qed.
 Example C01_ex_no_keys : run now0 ex_exec_ok link_dir (ex_args root_md (JDict []) None) = (Err ESignature, []).
 Proof. vm_compute. reflexivity. Qed.
 
-(** the oracle of the example is ideal, its keys are sslib-shaped, the payloads are well-formed:
+(** the oracle of the example is ideal and the payloads are well-formed:
     the hypotheses of the edit theorems are satisfiable, and the edited documents are rejected *)
 Example C01_ex_ideal : ideal_sigs ex_sig_ok.
 Proof. exact ex_ideal. Qed.
